@@ -352,6 +352,34 @@ def dedup(v):
     return v
 
 
+def gen_late_case(rng) -> dict:
+    """class C0 refers to C1 through forward references inside generics; C0 is encoded / decoded once BEFORE C1 exists"""
+    def mapped(names):
+        wires = rng.sample(WIRE, len(names))
+        return [[w, n] for w, n in zip(wires, names)], [[n, w] for w, n in zip(wires, names)]
+    n1 = rng.sample(PYNAMES, rng.randint(1, 3))
+    l1, d1 = mapped(n1)
+    c1 = {"id": 1, "fields": [{"name": n, "ty": rng.choice(["int", "str", "bool", "date"]), "default": None} for n in n1],
+          "load": l1, "dump": d1, "style": "obj"}
+    refs = rng.sample([("e", ["opt", ["data", 1]], ["n"]), ("es", ["list", ["data", 1]], ["l", []]),
+                       ("m", ["dict", ["data", 1]], ["m", []])], rng.randint(1, 3))
+    flds = [{"name": "name", "ty": "str", "default": None}] + [{"name": n, "ty": t, "default": d} for n, t, d in refs]
+    l0, d0 = mapped([f["name"] for f in flds])
+    c0 = {"id": 0, "fields": flds, "load": l0, "dump": d0, "style": "obj"}
+    classes = [c0, c1]
+    wire_name = [w for w, p in l0 if p == "name"][0]
+    empty = ["D", 0, [["name", ["s", "early"]]] + [[n, d] for n, _, d in refs]]
+    early = [{"val": empty}, {"ty": ["data", 0], "doc": ["m", [[wire_name, ["s", "early"]]]]}]
+    rng.shuffle(early)
+    plan = []
+    for _ in range(rng.randint(2, 3)):
+        if rng.random() < 0.5:
+            plan.append({"step": "decode_encode", "ty": ["data", 0], "doc": dedup(gen_doc(rng, classes, ["data", 0])), "conforming": True})
+        else:
+            plan.append({"step": "encode_decode", "ty": ["data", 0], "val": gen_val(rng, classes, ["data", 0])})
+    return {"kind": "conv", "classes": classes, "plan": plan, "late": [1], "early": early}
+
+
 def gen_conv_case(rng, malformed: bool, with_prehistory: bool = False) -> dict:
     classes = gen_classes(rng, malformed_maps=malformed and rng.random() < 0.5)
     n = len(classes)
@@ -472,50 +500,56 @@ def fresh_converter():
     return importlib.reload(cc)
 
 
-def ann_str(t, style_new: bool) -> str:
+def ann_str(t, style_new: bool, quote: frozenset = frozenset()) -> str:
     if isinstance(t, str):
         return {"str": "str", "int": "int", "float": "float", "bool": "bool", "bytes": "bytes", "datetime": "datetime",
                 "date": "date", "uuid": "UUID", "time": "time", "any": "Any"}[t]
     if t[0] == "list":
-        return ("list[%s]" if style_new else "List[%s]") % ann_str(t[1], style_new)
+        return ("list[%s]" if style_new else "List[%s]") % ann_str(t[1], style_new, quote)
     if t[0] == "dict":
-        return ("dict[str, %s]" if style_new else "Dict[str, %s]") % ann_str(t[1], style_new)
+        return ("dict[str, %s]" if style_new else "Dict[str, %s]") % ann_str(t[1], style_new, quote)
     if t[0] == "opt":
-        return ("%s | None" if style_new else "Optional[%s]") % ann_str(t[1], style_new)
-    if t[0] == "data":
-        return f"C{t[1]}"
-    return f"C{t[1]}"
+        return ("%s | None" if style_new else "Optional[%s]") % ann_str(t[1], style_new, quote)
+    return f'"C{t[1]}"' if t[1] in quote else f"C{t[1]}"      # a quoted name inside a generic = a ForwardRef
 
 
-def build_classes(classes: list[dict], seed: int, modname: str | None = None) -> tuple[dict, Any]:
+def build_classes(classes: list[dict], seed: int, modname: str | None = None, late: frozenset = frozenset(),
+                  into: tuple | None = None) -> tuple[dict, Any]:
     """real dataclasses (dataclasses.make_dataclass + Meta) in a synthetic module so that string annotations and
     get_type_hints resolve; classes with style 'obj' get real type objects, 'str' fully quoted annotations.
     With an explicit modname the module of that name is REPLACED (a reloaded models module: new class objects,
     same module and qualified names)."""
-    _case_no[0] += 1
-    modname = modname or f"_c16_case_{_case_no[0]}"
-    mod = types.ModuleType(modname)
-    sys.modules[modname] = mod
-    ns = {"Any": Any, "Optional": typing.Optional, "List": typing.List, "Dict": typing.Dict, "datetime": datetime,
-          "date": date, "UUID": UUID, "time": time}
-    mod.__dict__.update(ns)
-    built: dict[int, type] = {}
+    if into is not None:          # second phase: define the classes of `late` in the existing module
+        built, mod = into
+        modname = mod.__name__
+        todo = [c for c in classes if c["id"] in late]
+        late = frozenset()
+    else:
+        _case_no[0] += 1
+        modname = modname or f"_c16_case_{_case_no[0]}"
+        mod = types.ModuleType(modname)
+        sys.modules[modname] = mod
+        ns = {"Any": Any, "Optional": typing.Optional, "List": typing.List, "Dict": typing.Dict, "datetime": datetime,
+              "date": date, "UUID": UUID, "time": time}
+        mod.__dict__.update(ns)
+        built = {}
+        todo = [c for c in classes if c["id"] not in late]   # classes in `late` do not exist yet
 
     def refs_ok(t, cid):
         if isinstance(t, str):
             return True
         if t[0] in ("data", "fwd"):
-            return t[1] in built
+            return t[1] in built or t[1] in late
         return refs_ok(t[1], cid)
 
     # 'obj' style needs every referenced class to exist already: build high ids first (references go upward)
-    for c in sorted(classes, key=lambda c: -c["id"]):
+    for c in sorted(todo, key=lambda c: -c["id"]):
         cid = c["id"]
-        new_style = (cid + seed) % 2 == 0
+        new_style = (cid + seed) % 2 == 0 and not late
         as_obj = c["style"] == "obj" and all(refs_ok(f["ty"], cid) for f in c["fields"])
         flds = []
         for f in c["fields"]:
-            a: Any = ann_str(f["ty"], new_style)
+            a: Any = ann_str(f["ty"], new_style, late)
             if as_obj:
                 a = eval(a, dict(mod.__dict__))
             d = f["default"]
@@ -645,7 +679,23 @@ def run_conv(case: dict) -> dict:
         _case_no[0] += 1
         modname = f"_c16_case_{_case_no[0]}"
         run_prehistory(cc, case["prehistory"], modname)
-    built, mod = build_classes(case["classes"], len(case["plan"]), modname)
+    late = frozenset(case.get("late") or [])
+    built, mod = build_classes(case["classes"], len(case["plan"]), modname, late=late)
+    if late:
+        # the converter touches the classes while the names they refer to are not defined yet (a module-level default
+        # evaluated during a circular import); then the missing classes appear.  Outcomes of the early calls are not
+        # recorded: the laws must hold afterwards irrespective of this history.
+        for st in case.get("early", []):
+            try:
+                if "doc" in st:
+                    cc.structure_from_dict(to_py(st["doc"], built), py_type(st["ty"], built, mod))
+                else:
+                    cc.unstructure_to_dict(to_py(st["val"], built))
+            except NotModelled:
+                raise
+            except BaseException:  # noqa: BLE001
+                pass
+        build_classes(case["classes"], len(case["plan"]), late=late, into=(built, mod))
     rev = {k: cid for cid, k in built.items()}
     ops: list[dict] = []      # what the model replays: {"op","ty","doc"} / {"op","val"} + "obs"
     fails: list[str] = []
@@ -1122,6 +1172,8 @@ def main(chk: Check, replay: dict | None = None) -> int:
     n = 2500 if chk.thorough else 420
     for i in range(n):
         inputs.append(gen_conv_case(rng, malformed=(i % 3 == 2), with_prehistory=(i % 4 == 1)))
+    for i in range(n // 14):
+        inputs.append(gen_late_case(rng))
     inputs += fwd_shapes()
     for i in range(n // 3):
         inputs.append(gen_ser_case(rng, cyclic=(i % 4 >= 2), lists_only=(i % 4 == 2)))
@@ -1162,6 +1214,7 @@ def main(chk: Check, replay: dict | None = None) -> int:
                 dist["ser_with_forward_ref_dataclass"] = dist.get("ser_with_forward_ref_dataclass", 0) + 1
             continue
         dist["cases_conv"] += 1
+        dist["cases_with_late_defined_class"] = dist.get("cases_with_late_defined_class", 0) + bool(c["input"].get("late"))
         dist["cases_with_same_name_prehistory"] = dist.get("cases_with_same_name_prehistory", 0) + bool(c["input"].get("prehistory"))
         dist["error_names_innermost_field"] += c["stats"]["names_field"]
         dist["error_does_not_name_innermost_field"] += c["stats"]["names_field_miss"]
